@@ -351,6 +351,9 @@ def judge(T):
             if abs(tr - 1) > TOL and tr > 0 and _cmp(rho / tr, ref.rho) <= TOL:
                 sym = "mismatch-trace-only"
             V.append(_viol(prop, clause, T, sym, f"max|rho_impl-rho_ref|={d:.3e} trace_impl={tr:.6f}"))
+            if kind in ("expand", "contract"):
+                # a representation change that moves the physical state violates C08 as well as C02
+                V.append(_viol("C08", kind, T, sym, f"max|rho_impl-rho_ref|={d:.3e} trace_impl={tr:.6f}"))
     # ------------------------------------------------------------------ C07 / C13 / C20
     for cl, txt in o1.c07_problems():
         prop = "C10" if (kind == "resize" and cl == "shape") else "C07"
